@@ -90,6 +90,20 @@ def monitorSnap (tl : Tally) (s : PolSnap) (slack : Int) (what : String) : Tally
   if s.used ≤ bound then tl
   else tl.monitorAt "C01" s!"after {what}: used={s.used} exceeds max(0,max_cost)={s.max} + slack={slack}"
 
+/-- C17 at the policy: per call, cost_added - cost_evicted moves by exactly the change of `used`,
+and keys_evicted by exactly the number of charges that disappeared (implementation data only) -/
+def monitorMetricsDelta (tl : Tally) (before after : PolSnap) (what : String) : Tally :=
+  match before.met, after.met with
+  | some [ca0, ce0, ke0, _, _], some [ca1, ce1, ke1, _, _] =>
+    let dNet : Int := ((ca1 : Int) - ce1) - ((ca0 : Int) - ce0)
+    let dUsed : Int := after.used - before.used
+    let tl := if wrap64 dNet == wrap64 dUsed then tl
+      else tl.monitorAt "C17" s!"{what}: cost_added - cost_evicted moved by {dNet} but the charged total by {dUsed}"
+    let gone := (before.charges.filter fun p => !(after.charges.any (·.1 == p.1))).length
+    if wrap64 ((ke1 : Int) - ke0) == gone then tl
+    else tl.monitorAt "C17" s!"{what}: keys_evicted moved by {(ke1 : Int) - ke0} but {gone} charges disappeared"
+  | _, _ => tl
+
 def compareSnap (tl : Tally) (l : Lfu) (met : Option PolMet) (s : PolSnap) (what : String) : Tally :=
   let mc := l.costs.sorted
   let tl := if mc == s.charges && l.used == s.used && l.maxCost == s.max then tl
@@ -231,6 +245,7 @@ def stepPolicy (st : PolSt) (tl : Tally) (act : String) (ans : String) (prev : O
       let tl := if cost > before.max && (added || snap.charges != before.charges) then
           tl.monitorAt "C01" s!"oversize add (cost {cost} > max_cost {before.max}) was admitted or changed the charges" else tl
       let tl := monitorSnap tl snap slack s!"add {key} {cost}"
+      let tl := monitorMetricsDelta tl before snap s!"add {key} {cost}"
       -- correspondence
       let met := st.met.map fun m => R.events.foldl PolMet.apply m
       let tl := if R.added == added && R.victims == victims then tl
@@ -247,6 +262,7 @@ def stepPolicy (st : PolSt) (tl : Tally) (act : String) (ans : String) (prev : O
       let tl := tl.bump (if evs.isEmpty then "remove.absent" else "remove.charged")
       let met := st.met.map fun m => evs.foldl PolMet.apply m
       let tl := monitorSnap tl snap st.slack s!"remove {key}"
+      let tl := match prev with | some b => monitorMetricsDelta tl b snap s!"remove {key}" | none => tl
       let tl := compareSnap tl l' met snap "pol.remove"
       ({ st with l := some (lfuOfSnap l' snap), met := metOfSnap met snap }, { tl with ok := tl.ok + 1 }, some snap)
     | _, _, _ => (st, tl.badAt act, prev)
@@ -260,6 +276,7 @@ def stepPolicy (st : PolSt) (tl : Tally) (act : String) (ans : String) (prev : O
         | some p => st.slack + (if cost - p > 0 then cost - p else 0)
         | none => st.slack
       let tl := monitorSnap tl snap slack s!"update {key} {cost}"
+      let tl := monitorMetricsDelta tl before snap s!"update {key} {cost}"
       let tl := compareSnap tl l' met snap "pol.update"
       ({ st with l := some (lfuOfSnap l' snap), met := metOfSnap met snap, slack := slack }, { tl with ok := tl.ok + 1 }, some snap)
     | _, _, _, _, _ => (st, tl.badAt act, prev)
